@@ -16,9 +16,44 @@ import threading
 from harness import c01, catalog, core, observe, tlc
 
 
+PROBE = [None]
+_PROBE_CLS = [None]
+
+
+def probe_table_cls():
+    """a Table that calls PROBE[0] whenever it is rendered: the state of the statement it belongs to can be looked at DURING a render
+    (a write that is undone before get_sql returns is invisible to a before/after comparison)"""
+    if _PROBE_CLS[0] is None:
+        import pypika_tortoise as P
+
+        class ProbeTable(P.Table):
+            def get_sql(self, ctx):
+                if PROBE[0] is not None:
+                    PROBE[0]()
+                return super().get_sql(ctx)
+        ProbeTable.__name__ = "Table"
+        _PROBE_CLS[0] = ProbeTable
+    return _PROBE_CLS[0]
+
+
+def shape(o):
+    """cheap structural fingerprint of the top level of an object: container attributes with their lengths, scalars by repr"""
+    out = []
+    for a, v in sorted(vars(o).items()) if hasattr(o, "__dict__") else []:
+        if isinstance(v, (list, tuple, set, frozenset, dict)):
+            out.append((a, type(v).__name__, len(v)))
+        elif isinstance(v, (str, int, float, bool, type(None))):
+            out.append((a, repr(v)))
+    return out
+
+
 def objects(tier):
     """(key, maker) for every object rendered: each seed and each seed after one labelled call"""
-    fams = catalog.families()
+    catalog.TABLE_CLS = probe_table_cls()
+    try:
+        fams = catalog.families()
+    finally:
+        catalog.TABLE_CLS = None
     out = []
     for fname, fam in fams.items():
         for sname in fam.seeds:
@@ -135,8 +170,14 @@ def run(tier: str) -> int:
         pre = sdigest(o)
         attr0 = {a: c01.deep_repr(v) for a, v in vars(o).items()} if hasattr(o, "__dict__") else {}
         renders = []
-        for _ in range(reps):
-            for c, out in render_keys(o):
+        shape0, transient = shape(o), []
+        PROBE[0] = (lambda o=o, shape0=shape0, transient=transient: transient.append(1) if shape(o) != shape0 else None)
+        try:
+            first = render_keys(o)
+        finally:
+            PROBE[0] = None
+        for rp in range(reps):
+            for c, out in (first if rp == 0 else render_keys(o)):
                 renders.append({"c": c, "out": out, "post": pre})
             post = sdigest(o)
             if post != pre:
@@ -153,6 +194,10 @@ def run(tier: str) -> int:
             for c in sorted({r["c"] for r in renders}):
                 out = observe.render_one(makers[key](), c)
                 iso.append({"c": c, "out": hashlib.sha1(out.encode("utf-8", "surrogatepass")).hexdigest()[:12]})
+        if transient and renders:
+            # the object looked different to a probe inside one of its own renders: a write, even if undone afterwards
+            renders[0]["post"] = "transient-write"
+            footprint.setdefault(key, ["(restored before get_sql returned)"])
         ev = {"tid": len(events), "pre": pre, "renders": renders, "procs": [], "threads": [], "given": given_parameterizer(o), "isolated": iso}
         events.append(ev)
         keys.append(key)
